@@ -175,7 +175,14 @@ pub fn c01(tier: Tier, seed: u64) -> Verdict {
     let n = tier.pick(12_000, 400_000);
     let long = Profile { max_ops: tier.pick(40, 120), ..Profile::base() };
     explore_with(
-        &|merged: &mut Merged| merged.merge(run_large_texts("C01")),
+        &|merged: &mut Merged| {
+            merged.merge(run_large_texts("C01"));
+            if merged.violation.is_none() {
+                // every operation in every storage state of the catalogue (incl. heap buffers smaller than 16 bytes)
+                let cat = super::enumerators::catalogue(false);
+                merged.merge(super::enumerators::run_history_list("C01", cat.len(), |i| cat[i].clone(), |_| true));
+            }
+        },
         "C01",
         tier,
         seed,
@@ -224,6 +231,11 @@ pub fn c03(tier: Tier, seed: u64) -> Verdict {
     let n = tier.pick(12_000, 400_000);
     explore_with(
         &|merged: &mut Merged| {
+            let cat = super::enumerators::catalogue(false);
+            merged.merge(super::enumerators::run_history_list("C03", cat.len(), |i| cat[i].clone(), |_| true));
+            if merged.violation.is_some() {
+                return;
+            }
             // error and unwind paths: injected allocation failures and callback panics
             let nf = tier.pick(2500, 40_000);
             let m = run_sharded("C03", seed, 100, nf, || history_strategy(&Profile { w_clone: 24, ..Profile::faults() }), super::enumerators::fault_case("C03", false));
